@@ -145,7 +145,7 @@ def gen(rng, tier):
     for ty in range(3):
         for full in (0, 1):
             r = 10 + ty * 2 + full
-            ops += [[1, r, 5, ty, full], [6, r], [2, r, 2], [6, r], [3, r, 0], [6, r], [9, r], [6, r], [2, r, 1, 5], [6, r], [9, r], [6, r]]
+            ops += [[1, r, 5, ty, full], [6, r], [2, 1, r, 2], [6, r], [3, 1, r, 0], [6, r], [9, r], [6, r], [2, 1, r, 1, 5], [6, r], [9, r], [6, r]]
     add(ops, ['config'], 'cfg')
 
     # ---- (a) same item stream into the three types + a full-size register ----
@@ -173,8 +173,7 @@ def gen(rng, tier):
             if i in check_at or rng.random() < 0.02:
                 for r in range(4):
                     ops.append([6, r])
-            for r in range(4):
-                ops.append([2, r] + it)
+            ops.append([2, 4, 0, 1, 2, 3] + it)
         for r in range(4):
             ops.append([6, r])
         tags += ['promote', 'full', 'types']
@@ -189,14 +188,13 @@ def gen(rng, tier):
         # batch beyond promotion
         nb = (2 << lgk) if lgk <= (10 if quick else 12) else (1 << (lgk - 2))
         start = rng.randrange(-2**63, 2**63); stride = rng.choice([1, 3, 2**32 + 1, rng.randrange(1, 2**64)])
-        for r in list(range(4)) + [4, 9, 14]:
-            ops.append([4, r, start, nb, stride])
+        ops.append([4, 7, 0, 1, 2, 3, 4, 9, 14, start, nb, stride])
         for r in list(range(4)) + [4, 9, 14]:
             ops.append([6, r])
         for src in (0, 1, 2):
             for ty in range(3):
                 ops.append([7, src, nr, ty]); ops.append([6, nr]); nr += 1
-        ops += [[9, 0], [6, 0], [9, 3], [6, 3], [2, 3, 1, 1], [6, 3]]
+        ops += [[9, 0], [6, 0], [9, 3], [6, 3], [2, 1, 3, 1, 1], [6, 3]]
         add(ops, tags, 'items')
 
     # ---- (b) raw coupons at small lg_k: cur-min shifts and aux exceptions ----
@@ -220,8 +218,7 @@ def gen(rng, tier):
         pos = 0
         nq = 0
         for ch in chunks(stream, step):
-            for r in range(5):
-                ops.append([3, r] + ch)
+            ops.append([3, 5, 0, 1, 2, 3, 4] + ch)
             pos += len(ch)
             if pos >= conv_at:
                 ops.append([7, 4, 4, rng.randrange(3)]); conv_at = 1 << 60
@@ -239,8 +236,7 @@ def gen(rng, tier):
         # continue feeding the converted copies together with the originals
         more = raw_stream(rng, lgk, rng.choice([0, k, 4 * k]))
         if more:
-            for r in range(nr):
-                ops.append([3, r] + more)
+            ops.append([3, nr] + list(range(nr)) + more)
             for r in range(nr):
                 ops.append([6, r])
         final = regs_of(lgk, stream + more)
@@ -281,10 +277,10 @@ def gen(rng, tier):
                         seq.insert(rng.randrange(len(seq) + 1), rng.choice(seq))
             if use_items:
                 for it in seq:
-                    ops.append([2, r] + it)
+                    ops.append([2, 1, r] + it)
             else:
                 for ch in chunks(seq, rng.choice([1, 3, 50])):
-                    ops.append([3, r] + ch)
+                    ops.append([3, 1, r] + ch)
         for r in range(nreg):
             ops.append([6, r])
         if n >= prom:
